@@ -7,18 +7,20 @@
 #include <tfhe_garbage_collector.h>
 #include <polynomials_arithmetic.h>
 #include <thread>
+#include <functional>
 #include <sstream>
 #include <sys/wait.h>
 
-static void report(const char* scen, const char* cfg, const led::Snap& a, const led::Snap& b, uint64_t h, long okbits, long bits) {
-    VH_B; vh_s("e", "Scenario"); VH_C; vh_s("scen", scen); VH_C; vh_s("cfg", cfg); VH_C; vh_i("fill", led::fill.load()); VH_C; vh_i("allocs", b.nalloc - a.nalloc); VH_C; vh_i("frees", b.nfree - a.nfree); VH_C;
+static void report(const char* scen, const char* cfg, const led::Snap& a, const led::Snap& b, uint64_t h, long okbits, long bits, int strict = 1) {
+    VH_B; vh_s("e", "Scenario"); VH_C; vh_i("strict", strict); VH_C; vh_s("scen", scen); VH_C; vh_s("cfg", cfg); VH_C; vh_i("fill", led::fill.load()); VH_C; vh_i("allocs", b.nalloc - a.nalloc); VH_C; vh_i("frees", b.nfree - a.nfree); VH_C;
     vh_i("live_bytes", b.bytes - a.bytes); VH_C; vh_i("live_blocks", b.blocks - a.blocks); VH_C; vh_i("damaged", b.damaged - a.damaged); VH_C; vh_i("dfree", b.dfree - a.dfree); VH_C; vh_h("h", h); VH_C; vh_i("okbits", okbits); VH_C; vh_i("bits", bits); VH_E;
     fflush(stdout);
 }
 struct Cfg { int n, k, l, bg, t, bb; };
 // full lifecycle for one configuration: parameters, key generation, encryption, every kind of gate, decryption, export/import of the cloud key, deletion in the API's order
-static void lifecycle(const Cfg& c, unsigned seed, int order) {
-    char cfg[96]; snprintf(cfg, sizeof cfg, "n=%d k=%d l=%d Bgbit=%d t=%d basebit=%d order=%d", c.n, c.k, c.l, c.bg, c.t, c.bb, order);
+static void lifecycle(const Cfg& c, unsigned seed, int order, const char* scen = "lifecycle", int pos = -1) {
+    char cfg[112]; snprintf(cfg, sizeof cfg, "n=%d k=%d l=%d Bgbit=%d t=%d basebit=%d order=%d", c.n, c.k, c.l, c.bg, c.t, c.bb, order);
+    if (pos >= 0) snprintf(cfg + strlen(cfg), sizeof cfg - strlen(cfg), " pos=%d", pos);
     uint32_t sv[2] = {seed, 0x16u}; tfhe_random_generator_setSeed(sv, 2);
     led::Snap s0 = led::snap();
     uint64_t h = 7; long ok = 0, bits = 0;
@@ -34,6 +36,11 @@ static void lifecycle(const Cfg& c, unsigned seed, int order) {
         bootsXOR(ct + 4, ct + 3, ct + 2, bk); bits++; ok += bootsSymDecrypt(ct + 4, sk) == ((1 - x * y) ^ z);
         bootsMUX(ct + 5, ct, ct + 1, ct + 2, bk); bits++; ok += bootsSymDecrypt(ct + 5, sk) == (x ? y : z);
         bootsNOT(ct + 3, ct + 5, bk); bootsCOPY(ct + 4, ct + 3, bk); bootsCONSTANT(ct + 2, 1, bk); bootsANDYN(ct + 5, ct + 4, ct + 2, bk); bits++; ok += bootsSymDecrypt(ct + 5, sk) == ((1 - (x ? y : z)) & 0);
+        // gates whose inputs are all noiseless constants (every rounded mask coefficient is zero: the blind rotation has nothing to rotate by)
+        bootsCONSTANT(ct + 4, 0, bk);                                        // ct[2] is the constant 1 already
+        bootsNAND(ct + 5, ct + 2, ct + 4, bk); bits++; ok += bootsSymDecrypt(ct + 5, sk) == 1;
+        bootsXOR(ct + 5, ct + 2, ct + 2, bk); bits++; ok += bootsSymDecrypt(ct + 5, sk) == 0;
+        bootsMUX(ct + 5, ct + 2, ct + 4, ct + 2, bk); bits++; ok += bootsSymDecrypt(ct + 5, sk) == 0;
         // export the cloud key and the ciphertexts, re-import, evaluate with the re-imported key
         std::ostringstream os; export_tfheGateBootstrappingCloudKeySet_toStream(os, bk); export_gate_bootstrapping_ciphertext_toStream(os, ct + 3, ps);
         std::string blob = os.str(); h = hmix(h, blob.data(), blob.size());
@@ -53,7 +60,15 @@ static void lifecycle(const Cfg& c, unsigned seed, int order) {
         TfheGarbageCollector::finalize();             // parameters created by the importers are owned by the collector
     }
     led::Snap s1 = led::snap();
-    report("lifecycle", cfg, s0, s1, h, ok, bits);
+    report(scen, cfg, s0, s1, h, ok, bits, 0);   // not strict: a per-thread or one-time cache may legitimately stay alive until the thread / process ends
+}
+// runs f on a fresh thread and joins it: state a library keeps per thread must be gone when the thread has exited, so it is inside the window;
+// the ledger windows themselves are taken by lifecycle() on that thread, and one more window around the whole thread
+static void on_thread(const char* scen, const char* cfg, const std::function<void()>& f) {
+    led::Snap s0 = led::snap();
+    { std::thread t(f); t.join(); }
+    led::Snap s1 = led::snap();
+    report(scen, cfg, s0, s1, 0, 0, 0);
 }
 static void objects() {      // every alloc/new/delete pair of the public allocation API on small objects
     led::Snap s0 = led::snap();
@@ -90,11 +105,26 @@ int main(int argc, char** argv) {
     int q = 0;
     for (long n : ns) for (int k = 1; k <= (int)vh_arg(argc, argv, "--kmax", 2); k++) { Cfg c = {(int)n, k, layouts[q % 4][0], layouts[q % 4][1], layouts[q % 4][2], layouts[q % 4][3]};
         // each configuration in its own child: a crash is an observation, and the ledger of one configuration does not disturb the next
-        fflush(stdout); pid_t pid = fork(); if (pid == 0) { lifecycle(c, seed + q, q % 3); _exit(0); }
+        fflush(stdout); pid_t pid = fork(); if (pid == 0) { int ord = q % 3; unsigned sd = seed + q; char tc[96]; snprintf(tc, sizeof tc, "thread of n=%d k=%d l=%d order=%d", c.n, c.k, c.l, ord);
+            lifecycle(c, sd, ord);                                               // first use in this process: one-time allocations happen here
+            on_thread("lifecycle-thread", tc, [=]() { lifecycle(c, sd, ord); });     // same seed: same results (memo), and nothing may outlive the thread
+            fflush(stdout); _exit(0); }
         int st = 0; waitpid(pid, &st, 0);
         if (!(WIFEXITED(st) && WEXITSTATUS(st) == 0)) { char cfg[96]; snprintf(cfg, sizeof cfg, "n=%d k=%d l=%d Bgbit=%d t=%d basebit=%d order=%d", c.n, c.k, c.l, c.bg, c.t, c.bb, q % 3);
             VH_B; vh_s("e", "Crash"); VH_C; vh_s("scen", "lifecycle"); VH_C; vh_s("cfg", cfg); VH_C; vh_i("fill", led::fill.load()); VH_C; vh_i("sig", WIFSIGNALED(st) ? WTERMSIG(st) : -WEXITSTATUS(st)); VH_E; }
         q++; }
+    // histories: several configurations back to back on ONE thread of one process (what a per-thread or static cache keyed by too little would get wrong);
+    // the orders include equal N and equal (k+1)*l with growing and shrinking k, growing and shrinking n, and a repeat of the first configuration
+    { Cfg seqs[2][5] = {{{9, 1, 3, 7, 8, 2}, {7, 2, 2, 10, 5, 3}, {3, 1, 2, 10, 5, 3}, {8, 2, 4, 8, 4, 4}, {9, 1, 3, 7, 8, 2}},
+                        {{3, 2, 2, 10, 5, 3}, {8, 1, 3, 7, 8, 2}, {1, 1, 6, 4, 8, 2}, {7, 2, 4, 6, 5, 3}, {12, 1, 2, 10, 4, 4}}};
+      for (int sq = 0; sq < 2; sq++) { fflush(stdout); pid_t pid = fork();
+        if (pid == 0) { char tc[32]; snprintf(tc, sizeof tc, "sequence %d", sq); const Cfg* cs = seqs[sq];
+            auto body = [=]() { for (int i = 0; i < 5; i++) lifecycle(cs[i], seed + 100 + i, i % 3, "sequence", sq * 10 + i); };
+            body(); on_thread("sequence-thread", tc, body);
+            fflush(stdout); _exit(0); }
+        int st = 0; waitpid(pid, &st, 0);
+        if (!(WIFEXITED(st) && WEXITSTATUS(st) == 0)) { char cfg[32]; snprintf(cfg, sizeof cfg, "sequence %d", sq);
+            VH_B; vh_s("e", "Crash"); VH_C; vh_s("scen", "sequence"); VH_C; vh_s("cfg", cfg); VH_C; vh_i("fill", led::fill.load()); VH_C; vh_i("sig", WIFSIGNALED(st) ? WTERMSIG(st) : -WEXITSTATUS(st)); VH_E; } } }
     fflush(stdout);
     return 0;
 }
